@@ -440,9 +440,13 @@ impl Grid {
             .collect();
         for &delay in &self.delays {
             for &timeout in &self.timeouts {
-                for ci in 0..(n + 2) {
+                // none, 0..=n, and two bounds above the number of candidates (n+3 and usize::MAX):
+                // "no more than the configured number" with a number that is never reached
+                for ci in 0..(n + 4) {
                     let concurrency = match ci {
                         0 => None,
+                        k if k == n + 2 => Some(n + 3),
+                        k if k == n + 3 => Some(usize::MAX),
                         k => Some(k - 1),
                     };
                     f(Config {
@@ -573,7 +577,7 @@ pub fn run(args: &Args, which: &str) -> i32 {
     let _ = std::panic::take_hook();
     run.cov("evaluations", evaluations);
     run.cov("distinct_nontrivial", all_traces.len() as u64);
-    run.cov("rule", format!("full grid: N=0..={} attempts x outcome{{ok,err,never}} x latency grid x stagger delay{{none,0,2}} x overall timeout grid x initial concurrency{{none,0,1..N}}, each executed on the real EyeballSet in paused virtual time (unit 10ms); distinct = distinct (start-time vector, result, completion time) among configurations with N>=2", grid.max_n));
+    run.cov("rule", format!("full grid: N=0..={} attempts x outcome{{ok,err,never}} x latency grid x stagger delay{{none,0,2}} x overall timeout grid x initial concurrency{{none,0,1..N,N+3,usize::MAX}}, each executed on the real EyeballSet in paused virtual time (unit 10ms); distinct = distinct (start-time vector, result, completion time) among configurations with N>=2", grid.max_n));
     run.cov("exhaustive", true);
     run.cov("samples", samples);
     run.assume("virtual time: tokio paused clock; timer granularity below 10ms is outside the model");
